@@ -105,6 +105,11 @@ pub(crate) fn sync_channel<T>(_bound: usize) -> (SyncSender<T>, Receiver<T>) {
     (SyncSender { id, ch: ch.clone() }, Receiver { id, ch })
 }
 
+/// harness side: variant tag of the i-th item ever sent on channel `id`
+pub(crate) fn tag_at(id: usize, i: usize) -> u8 {
+    unsafe { TAGS[id][i] }
+}
+
 /// harness side: forget all channels (a harness that opens a second store)
 pub(crate) fn reset_channels() {
     unsafe {
